@@ -219,6 +219,20 @@ pub fn load_prefix_graph(objects: &Path, k: usize) -> gix_commitgraph::Graph {
         .unwrap_or_else(|e| vkit::machinery!("partial commit-graph {k} unreadable: {e}"))
 }
 
+thread_local! {
+    static GRAPHS: std::cell::RefCell<HashMap<(PathBuf, usize), gix_commitgraph::Graph>> = std::cell::RefCell::new(HashMap::new());
+}
+/// like `load_prefix_graph`, but re-uses the instance a previous traversal on this thread handed back with `give_back_prefix_graph`
+/// (the traversals own their commit-graph; re-opening and unmapping the file per case dominated the run time)
+pub fn take_prefix_graph(objects: &Path, k: usize) -> gix_commitgraph::Graph {
+    GRAPHS.with(|g| g.borrow_mut().remove(&(objects.to_owned(), k))).unwrap_or_else(|| load_prefix_graph(objects, k))
+}
+pub fn give_back_prefix_graph(objects: &Path, k: usize, graph: Option<gix_commitgraph::Graph>) {
+    if let Some(graph) = graph {
+        GRAPHS.with(|g| g.borrow_mut().insert((objects.to_owned(), k), graph));
+    }
+}
+
 pub fn load_commit_graph(objects: &Path) -> gix_commitgraph::Graph {
     gix_commitgraph::Graph::from_info_dir(&objects.join("info")).unwrap_or_else(|e| vkit::machinery!("commit-graph unreadable: {e}"))
 }
